@@ -321,6 +321,9 @@ def exits_and_presets(L):
     return consts, presets, cwd_unwrap, [(msg, code) for msg, code, _ in exits]
 
 
+GUARD_FIELDS = []
+
+
 def run_filter_facts(L):
     """the pathspec filter of checkpoint::run (src/commands/checkpoint.rs)"""
     rel = "src/commands/checkpoint.rs"
@@ -332,6 +335,15 @@ def run_filter_facts(L):
     if not m:
         raise L.GenError("checkpoint::run: `if filtered.is_empty() {..} else {..}` not found")
     blk = m.group(1)
+    # which payload lists feed the filter (and with it the all-foreign guard): the pre-edit list for a Human report,
+    # the edited list otherwise; `p` is that list
+    sel = re.search(r"let\s+paths\s*=\s*if\s+result\.checkpoint_kind\s*==\s*CheckpointKind::Human\s*\{\s*result\.(\w+)\.as_ref\(\)\s*\}"
+                    r"\s*else\s*\{\s*result\.(\w+)\.as_ref\(\)\s*\}\s*;\s*paths\.and_then\(\|p\|\s*\{", fn)
+    if not sel:
+        raise L.GenError("checkpoint::run: `let paths = if Human { will_edit } else { edited }; paths.and_then(|p| {` not found")
+    GUARD_FIELDS[:] = [sel.group(1), sel.group(2)]
+    if m.start() < sel.end():
+        raise L.GenError("checkpoint::run: the empty-filter test is not inside the closure over the selected list")
     flag = re.search(r"(\w+)\s*=\s*!\s*p\.is_empty\(\)\s*;", blk)
     if flag:
         # the flag must decide that nothing is gathered
@@ -477,6 +489,8 @@ def generate(L):
     foreign_all = run_filter_facts(L)
     lines.append("(* checkpoint::run: a non-empty request whose paths are all filtered out — does it scan the whole work tree? *)")
     lines.append("Definition foreign_request_scans_all : bool := " + L.coq_bool(foreign_all) + ".")
+    lines.append("(* the lists that feed the filter and the all-foreign guard: (Human report, any other report) *)")
+    lines.append("Definition foreign_guard_fields : list (list N) := [" + "; ".join(L.coq_str([ord(c) for c in f]) for f in GUARD_FIELDS) + "].")
     lines.append("(* ---- 4. serde shapes: (field, type, has #[serde(default)]) in declaration order *)")
     lines.append("Definition v1_tag : list N := " + s(tag) + ".")
     lines.append("Definition v1_variants : list (list N * list (list N * ftype * bool)) :=\n  [" +
